@@ -32,10 +32,11 @@ func NewRoundRobinLoadBalance() *RoundRobinLoadBalance {
 
 func (lb *RoundRobinLoadBalance) getIndex(n int64) int64 {
 	if n > 1 {
-		if i := atomic.AddInt64(&lb.index, 1); i < n {
-			return i
-		}
-		atomic.StoreInt64(&lb.index, 0)
+		// a counter that only grows, taken modulo the number of servers: concurrent callers
+		// each get the next slot of the rotation. (Resetting the counter at the end of the
+		// list lost steps and rewound others when two callers overshot together: over a
+		// cycle the servers were not served equally.)
+		return int64(uint64(atomic.AddInt64(&lb.index, 1)) % uint64(n))
 	}
 	return 0
 }
